@@ -63,7 +63,15 @@ def fault_scripts(rnd, quick):
                     # what a fresh instance says (validated before, so that nothing remembered from then can be reused)
                     sc += mb + [head, 'store %d %s' % (n, ' '.join(map(str, img))), 'validate',
                            'fault %d %d' % (k, kind), op, 'validate', 'fetch', 'reopen', 'validate', 'fetch']
-        yield sc
+        # an image that does not validate (one octet altered), then validate / fetch with a fault at every read - also at reads
+        # only a second pass over the medium would make: a failing read is an I/O error wherever it falls
+        sc2 = []
+        for a in (place, place + width, place + width + n - 1):
+            for k in range(1, 2 * (n + 3) + 2):
+                for kind in (1, 4):
+                    sc2 += mb + [head, 'store %d %s' % (n, ' '.join(map(str, img))), 'corrupt %d %d' % (a, 170),
+                                 'fault %d %d' % (k, kind), 'validate', 'validate', 'reopen', 'validate']
+        yield sc + sc2
 
 
 def run(tier):
